@@ -89,6 +89,10 @@ def cases(tier, seed):
     for k in range(40 if tier == "quick" else 400):
         out.append({"kind": "moore", "cls": "moore", "idx": idx, "seed": seed, "maxd": maxd})
         idx += 1
+    # a pivot entry that is tiny against its column but is data, not round-off (sizes 3..9, all four spectrum kinds)
+    for k in range(28 if tier == "quick" else 280):
+        out.append({"kind": "moore", "cls": "moore", "idx": idx, "seed": seed, "maxd": maxd, "n": 3 + k % 7, "struct": "leading_tiny"})
+        idx += 1
     return out
 
 
@@ -463,8 +467,18 @@ def _moore(spec, ctx, R):
     A, _ = refq.hermitian_with_eigs(rng, e)
     tagk = ["definite", "indefinite", "singular", "repeated"][k]
     struct = ["dense", "dense", "zero_subdiagonal_entry", "arrow", "sparse", "block_diagonal", "tridiagonal", "real_symmetric",
-              "hollow", "dilation", "leading_entry_zero", "leading_block_rank_one"][(spec["idx"] // 4) % 12]
-    if struct in ("hollow", "dilation", "leading_entry_zero", "leading_block_rank_one") and n >= 2:
+              "hollow", "dilation", "leading_entry_zero", "leading_block_rank_one", "leading_tiny"][(spec["idx"] // 4) % 13]
+    struct = spec.get("struct", struct)
+    if struct == "leading_tiny" and n >= 3:
+        # the entry that carries the first reflector's phase is tiny (1e-7 .. 1e-10 of its column) but not zero: data, not round-off
+        c = refq.fa(A).copy()
+        t_ = float(rng.choice([1e-7, 1e-9, 1e-10]))
+        c[1, 0] = c[1, 0] / max(float(np.linalg.norm(c[1, 0])), 1e-300) * t_
+        c[0, 1] = c[1, 0] * np.array([1.0, -1.0, -1.0, -1.0])
+        A = refq.symmetrize(refq.qa(c))
+        tagk = "structured:leading_tiny"
+        ctx.hit("moore:structured_hermitian")
+    elif struct in ("hollow", "dilation", "leading_entry_zero", "leading_block_rank_one") and n >= 2:
         # NONSINGULAR Hermitian matrices with a vanishing leading principal minor (zero diagonal, the Hermitian dilation [[0,B],[B^H,0]], a zero
         # leading entry, a leading 2x2 block of rank one): the determinant is far from zero although an elimination without pivoting breaks down
         B_ = refq.randq(rng, n, n)
